@@ -13,6 +13,7 @@ package parser
 import (
 	"fmt"
 	"os"
+	"runtime/metrics"
 	"strings"
 	"testing"
 	"time"
@@ -142,7 +143,23 @@ type c20Result struct {
 	err   error
 	pan   any
 	stack string
+	// bytes allocated by the process while Read ran (rapid runs one case at a time)
+	alloc uint64
 }
+
+func c20Allocated() uint64 {
+	sample := []metrics.Sample{{Name: "/gc/heap/allocs:bytes"}}
+	metrics.Read(sample)
+	if sample[0].Value.Kind() != metrics.KindUint64 {
+		return 0
+	}
+	return sample[0].Value.Uint64()
+}
+
+// c20AllocLimit: the reader declares limits of its own (64 MiB for the results of macro expansion, 1024 imports, 256
+// levels); reading the heaviest input that stays within them allocates about 0.3 GiB. A few hundred bytes that make it
+// allocate several GiB defeat those limits - and a few hundred more take the process down.
+const c20AllocLimit = 2 << 30
 
 const c20Watchdog = 10 * time.Second
 
@@ -177,6 +194,8 @@ func c20Read(src string) (res c20Result, ok bool) {
 			}
 			ch <- r
 		}()
+		a0 := c20Allocated()
+		defer func() { r.alloc = c20Allocated() - a0 }()
 		r.nodes, r.err = Read(strings.NewReader(src), "verif.conf")
 	}()
 	t0 := time.Now()
@@ -257,6 +276,10 @@ func c20Oracle(src string, definedBefore map[string]bool) (vs []ev.V, hang bool)
 	}
 	if res.pan != nil {
 		return []ev.V{{Sig: "panic:" + ev.PanicSite(res.stack), What: fmt.Sprintf("Read panicked: %v\n%s", res.pan, res.stack)}}, false
+	}
+	if res.alloc > c20AllocLimit {
+		return []ev.V{ev.Vf("resources:"+c20HeavyShape(src), "Read allocated %d MiB for a %d-byte input (err=%v): the limits of the reader (64 MiB of expansion results, 1024 imports, 256 levels) do not bound its work, a slightly longer input of the same shape exhausts the memory",
+			res.alloc>>20, len(src), res.err)}, false
 	}
 	if res.err != nil {
 		c20Last.rejected = true
@@ -402,7 +425,7 @@ func c20GenDoc(t *rapid.T) c20Doc {
 	shape := g.n("shape", 0, 19)
 	if shape == 5 {
 		// the three expensive shapes share one slot
-		shape = []int{5, 6, 7}[g.n("expensive_shape", 0, 2)]
+		shape = []int{5, 6, 7, 20, 21, 22}[g.n("expensive_shape", 0, 5)]
 	} else if shape == 6 || shape == 7 {
 		shape = 8
 	}
@@ -442,6 +465,46 @@ func c20GenDoc(t *rapid.T) c20Doc {
 		for i := 0; i < pair[1]; i++ {
 			fmt.Fprintf(&g.b, "d $(v%d)\n", lines)
 		}
+	case 20: // a big macro value used once in a snippet, the snippet multiplied by imports of imports
+		for i, g0 := 1, g.b.WriteString; i <= 15; i++ {
+			if i == 1 {
+				g0("$(v0) = x y\n")
+			}
+			fmt.Fprintf(&g.b, "$(v%d) = $(v%d) $(v%d)\n", i, i-1, i-1)
+		}
+		g.b.WriteString("(s0) {\n d $(v15)\n}\n(s1) {\n")
+		for i, n := 0, rapid.SampledFrom([]int{2, 8, 12}).Draw(t, "inner_imports"); i < n; i++ {
+			g.b.WriteString(" import s0\n")
+		}
+		g.b.WriteString("}\n")
+		for i, n := 0, rapid.SampledFrom([]int{1, 10, 14}).Draw(t, "outer_imports"); i < n; i++ {
+			g.b.WriteString("import s1\n")
+		}
+	case 21: // a big macro value used inside many nested blocks
+		for i := 1; i <= 15; i++ {
+			if i == 1 {
+				g.b.WriteString("$(v0) = x y\n")
+			}
+			fmt.Fprintf(&g.b, "$(v%d) = $(v%d) $(v%d)\n", i, i-1, i-1)
+		}
+		depth := rapid.SampledFrom([]int{3, 100, 200}).Draw(t, "blocks")
+		g.b.WriteString(strings.Repeat("b {\n", depth))
+		for i, n := 0, rapid.SampledFrom([]int{1, 20}).Draw(t, "uses"); i < n; i++ {
+			g.b.WriteString("d $(v15)\n")
+		}
+		g.b.WriteString(strings.Repeat("}\n", depth))
+	case 22: // a chain of snippets importing the next one beside many imports of a big snippet
+		n := rapid.SampledFrom([]int{10, 200, 400}).Draw(t, "big_lines")
+		g.b.WriteString("(big) {\n" + strings.Repeat(" a\n", n) + "}\n")
+		chain := rapid.SampledFrom([]int{3, 100, 250}).Draw(t, "chain")
+		for i := 0; i < chain; i++ {
+			fmt.Fprintf(&g.b, "(c%d) {\n import c%d\n}\n", i, i+1)
+		}
+		fmt.Fprintf(&g.b, "(c%d) {\n}\n", chain)
+		for i, m := 0, rapid.SampledFrom([]int{5, 700, 770}).Draw(t, "big_imports"); i < m; i++ {
+			g.b.WriteString("import big\n")
+		}
+		g.b.WriteString("import c0\n")
 	case 5: // macros defined in terms of the previous one: the value doubles with every line
 		n := rapid.SampledFrom([]int{4, 8, 16, 24, 32, 40}).Draw(t, "growth_lines")
 		instr := rapid.Bool().Draw(t, "growth_in_string")
@@ -554,6 +617,18 @@ func c20RunDoc(d c20Doc) []ev.V {
 			What: fmt.Sprintf("Read did not return within %v on a %d-byte input (normal: microseconds)", c20Watchdog, len(src))})
 	}
 	return vs
+}
+
+func c20HeavyShape(src string) string {
+	switch {
+	case strings.Contains(src, "import big"):
+		return "import-chain-copies-the-tree-per-level"
+	case strings.Contains(src, "import"):
+		return "imports-multiply-expanded-macros"
+	case strings.Count(src, "{") > 50:
+		return "macros-expanded-again-by-every-enclosing-block"
+	}
+	return "other"
 }
 
 func c20HangShape(src string) string {
@@ -672,10 +747,11 @@ func TestVerifC20(t *testing.T) {
 	os.WriteFile("loop2.conf", []byte("(s2) {\n import s2\n y {\n import s2\n }\n}\nimport s2\n"), 0o644)
 	r.Rule("docs: documents from a grammar (directives, bare/quoted args with escapes, blocks in four layouts, continuations, comments, macro definitions and " +
 		"references incl. forward/self/undefined and in-string, snippets and imports incl. self/mutual/unknown/file, {env:} placeholders with a controlled environment, " +
-		"nesting of 10..2000 levels, raw rapid.String()) followed by 0-3 byte-level mutations (insert hostile token, delete, truncate, duplicate slice); " +
+		"nesting of 10..2000 levels, raw rapid.String(), a big macro value multiplied by imports of imports or by nested blocks, a chain of snippets beside many imports) followed by 0-3 byte-level mutations (insert hostile token, delete, truncate, duplicate slice); " +
 		"non-trivial = contains a block and a macro, snippet/import, quote escape or continuation. trees: generated trees with expressible tokens -> canonical printer -> Read; " +
 		"non-trivial = some argument needs quoting. Distinct = distinct source text / tree.")
-	r.Assume("termination is decided by a 10 s watchdog on inputs that normally parse in microseconds (DESIGN.md C20)")
+	r.Assume("termination is decided by a 10 s watchdog on inputs that normally parse in microseconds, stretched by a calibration run when the machine is loaded (DESIGN.md C20)")
+	r.Assume("'without crashing' includes running out of memory: a Read that allocates more than 2 GiB (the heaviest input within the reader's own limits needs about 0.3 GiB) is reported, measured with runtime/metrics around the call")
 	ev.Run(t, r, ev.Spec[c20Doc]{Name: "docs", N: r.N, Gen: c20GenDoc, Run: c20RunDoc, Info: c20InfoDoc, Journal: true})
 	ev.Run(t, r, ev.Spec[c20Tree]{Name: "trees", N: r.Scale(1, 2, 100), Gen: func(t *rapid.T) c20Tree { return c20Tree{Nodes: c20GenTreeNodes(t, 0)} }, Run: c20RunTree, Info: c20InfoTree})
 }
